@@ -375,6 +375,20 @@ def rule_r3(p, res):
             if isinstance(n, ast.Assign) and isinstance(n.targets[0], ast.Subscript) and norm(n.targets[0].slice) == "label['label']" and isinstance(n.targets[0].value, ast.Name):
                 created += [norm(v_) for k_, v_, st_ in dd.of(n.targets[0].value.id) if k_ == "assign" and isinstance(v_, ast.AST) and not (isinstance(v_, ast.Call) and (dotted(v_.func) or "") in [h.name for h, _k in helpers_of_pr])]
     need(created, "C16.R3: the mapping that collects the parsed labels was not found")
+    # one mapping per group: inside the loop over the groups the mapping is (re)created on every path before it is used
+    gl = [n for n in walk_own(pr.node) if isinstance(n, ast.For) and "['groups']" in norm(n.iter)]
+    need(len(gl) == 1, "C16.R3: the loop over the LJSON groups was not found")
+    uses = [k for k in calls_in(gl[0]) if isinstance(k.func, ast.Attribute) and k.func.attr == "init_from_edges"]
+    need(uses, "C16.R3: the construction of the parsed group was not found")
+    gg = cfgmod.build(pr.node)
+    for k in uses:
+        mapping_args = [a_ for a_ in list(k.args) + [kw.value for kw in k.keywords] if isinstance(a_, ast.Name) and any(isinstance(x, ast.Assign) and isinstance(x.targets[0], ast.Name)
+                        and x.targets[0].id == a_.id and isinstance(x.value, ast.Call) and ((dotted(x.value.func) or "") in ("OrderedDict", "dict") or (dotted(x.value.func) or "") in [h.name for h, _k in helpers_of_pr])
+                        for x in walk_own(pr.node))]
+        for a_ in mapping_args:
+            fresh = [x for x in gl[0].body if isinstance(x, ast.Assign) and isinstance(x.targets[0], ast.Name) and x.targets[0].id == a_.id]
+            r.check(bool(fresh) and fresh[0].lineno < stmt_of(k).lineno, pr, stmt_of(k), "`%s` is not re-created unconditionally for every group before `%s` uses it: a group without labels inherits the labels and masks "
+                    "of the group parsed before it" % (a_.id, norm(k)[:50]), {"per_group_mapping": a_.id})
     r.check(all(c_ == "OrderedDict()" for c_ in created), pr, pr.node, "parsed labels must be collected in an ordered mapping, in file order (found %s)" % created)
     loops = [n for n in walk_own(pr.node) if isinstance(n, ast.For) and norm(n.iter) == "lms_dict_group['labels']"]
     for h, k_ in helpers_of_pr:
@@ -557,4 +571,14 @@ WITNESSES = [
 WITNESSES += [
     Witness("C16.W14", "menpo/shape/labelled.py", "LabelledPointUndirectedGraph.tojson", "lms_dict = PointUndirectedGraph.tojson(self)", "lms_dict = PointCloud.tojson(self)",
             rule="C16.R3", construct="LabelledPointUndirectedGraph.tojson", note="seeded change R3-C16-B"),
+]
+
+WITNESSES += [
+    Witness("C16.W15", "menpo/io/input/landmark.py", "_parse_ljson_v3",
+            "    all_lms = {}\n    for key, lms_dict_group in lms_dict['groups'].items():", "    all_lms = {}\n    labels_to_mask = OrderedDict()\n    for key, lms_dict_group in lms_dict['groups'].items():",
+            rule=None, kind="T", note="an extra creation before the loop alone changes nothing"),
+    Witness("C16.W16", "menpo/io/input/landmark.py", "_parse_ljson_v3",
+            "        labels_to_mask = OrderedDict()\n        if len(lms_dict_group['labels']) != 0:\n            n_points = points.shape[0]",
+            "        if len(lms_dict_group['labels']) != 0:\n            labels_to_mask = OrderedDict()\n            n_points = points.shape[0]",
+            rule="C16.R3", construct="_parse_ljson_v3", note="seeded change C16-A (mapping only re-created for labelled groups)"),
 ]
